@@ -32,7 +32,7 @@ theorem stepA (s s' : St) (l : Lbl) (h : InvA s) (hs : step s l = some s') : Inv
     · simp at hs
     · rename_i hn
       simp at hs; subst hs
-      have hn' : id ∉ s.accepted := fun hh => hn (Or.inr hh)
+      have hn' : id ∉ s.accepted := fun hh => hn (Or.inr (Or.inl hh))
       refine ⟨?_, List.nodup_cons.mpr ⟨hn', h.nodup⟩⟩
       intro a
       have := hc a
@@ -127,7 +127,7 @@ theorem stepB (s s' : St) (l : Lbl) (h : InvB s) (hs : step s l = some s') : Inv
         · exact hexp b hb
         · subst hb; exact hbound
     · simp at hs
-  case exportEnd =>
+  case exportEnd ok =>
     split at hs
     · rename_i hw
       simp at hs; subst hs
